@@ -193,6 +193,7 @@ let parse_eop (tok : string) : eop =
   | ["RR"; r] -> ERemoveRow (z_of_string r)
   | ["IC"; c; n] -> EInsertCols (z_of_string c, z_of_string n)
   | ["RC"; c] -> ERemoveCol (z_of_string c)
+  | ["DR"; r; r2] -> EDupRowTo (z_of_string r, z_of_string r2)
   | _ -> EBase (parse_op tok)
 
 let () =
@@ -289,6 +290,24 @@ let () =
       | _ -> failwith ("bad row " ^ t)) a in
     let (n, pl) = check_sheet rs in
     string_of_z n ^ " " ^ String.concat " " (List.map (fun o -> match o with Some i -> string_of_z i | None -> "-1") pl))
+
+(* ---- C03 merged ranges: MergeCell / UnmergeCell / GetMergeCells ---- *)
+let () =
+  reg "c03.merges" (fun a ->
+    let rect_of l = match l with
+      | [x1; y1; x2; y2] -> (((z_of_string x1, z_of_string y1), z_of_string x2), z_of_string y2)
+      | _ -> failwith "bad rect" in
+    let show l = String.concat ";" (List.map (fun (((x1, y1), x2), y2) ->
+      String.concat "," (List.map string_of_z [x1; y1; x2; y2])) l) in
+    let outs = ref [] in
+    let st = List.fold_left (fun st t ->
+      match String.split_on_char ',' t with
+      | "M" :: r -> merge_step st (MMerge (rect_of r))
+      | "U" :: r -> merge_step st (MUnmerge (rect_of r))
+      | ["G"] -> let st' = merge_step st MGet in outs := show st' :: !outs; st'
+      | _ -> failwith ("bad mop " ^ t)) [] a in
+    outs := show (norm st) :: !outs;
+    String.concat " | " (List.rev !outs))
 
 (* ---- C18 defined names ---- *)
 let () =
